@@ -174,6 +174,19 @@ theorem hist_inv (v : Variant) (hv : Syncing v) (saves : List (Bytes × List Op)
           · right; exact ⟨(data, ops), by simp, by rw [h, h1]⟩
         · right; exact ⟨x, by simp [hx], h⟩
 
+/-- with the real reset point the buffer plays no role: a history on one object is the history of
+    its snapshots -/
+theorem objHist_eq_hist (v : Variant) (saves : List (Bytes × List Op)) (fs : FS) (buf : Bytes) :
+    (runObjHist v .beforeFormat fs buf saves).map (·.1) = runHist v fs saves := by
+  induction saves generalizing fs buf with
+  | nil => simp [runObjHist, runHist]
+  | cons sv rest ih =>
+    obtain ⟨snap, ops⟩ := sv
+    simp only [runObjHist, runHist, saveData]
+    cases run v snap ⟨beginSave v fs, .start⟩ ops with
+    | none => simp
+    | some s => exact ih s.fs _
+
 theorem invV_run (v : Variant) (hv : NotOrigFile v) (old : Option Bytes) (new : Bytes)
     (ops : List Op) (s : St) (hr : run v new (init old) ops = some s) : InvV old new s :=
   TS.invariant_of_step (step? v new) (InvV old new)
